@@ -245,6 +245,7 @@ class Interp:
         self.gvalues = {}
         self.gbusy = set()
         self.keys = {}
+        self.asets = {}          # attribute sets: name -> [(prec, seq, [used set names], [(avt name, body)])]
         self.keycache = {}
         self.seq = 0
         self.prec = 0
@@ -295,6 +296,8 @@ class Interp:
                     raise XsltError("duplicate global")
             elif t[0] == "key":
                 self.keys.setdefault(t[1], []).append((t[2], t[3]))
+            elif t[0] == "attribute-set":
+                self.asets.setdefault(t[1], []).append((prec, self.seq, t[2], t[3]))
             else:
                 raise XsltError("top " + str(t[0]))
 
@@ -603,6 +606,22 @@ class Interp:
         self.ev(("CA," if copy else "A,") + shown + "," + value.encode("utf-8").hex())
         b.attr(name, value)
 
+    def apply_sets(self, names, cx, b, tm, mode, active=()):
+        """7.1.4: the attributes of the named sets, in order; a set's used sets first; definitions of one name
+        merged by import precedence (higher precedence later, so it wins); only top-level bindings visible"""
+        for nm in names:
+            if nm in active:
+                raise XsltError("circular attribute-set")
+            if nm not in self.asets:
+                raise XsltError("no such attribute-set")
+            self.stat("attribute-set-applied")
+            for prec, seq, uses, attrs in sorted(self.asets[nm], key=lambda d: (d[0], d[1])):
+                self.apply_sets(uses, cx, b, tm, mode, active + (nm,))
+                for avt, body in attrs:
+                    an = self.qname(self.avt(avt, cx, {}), True)
+                    v = self.body_string(body, cx, {}, tm, mode, "attribute")
+                    self.emit_attr(b, an, self.shown(an), v)
+
     def shown(self, name):
         return (name[0] + "^" + name[1]) if name[0] else name[1]
 
@@ -613,6 +632,8 @@ class Interp:
             if k == "lre":
                 nm = self.qname(ins[1])
                 self.emit_start(b, nm, self.shown(nm))
+                if len(ins) > 4:
+                    self.apply_sets(ins[4], cx, b, tm, mode)
                 for aq, parts in ins[2]:
                     an = self.qname(aq, True)
                     self.emit_attr(b, an, self.shown(an), self.avt(parts, cx, env))
@@ -621,6 +642,8 @@ class Interp:
             elif k == "element":
                 nm = self.qname(self.avt(ins[1], cx, env))
                 self.emit_start(b, nm, self.shown(nm))
+                if len(ins) > 3:
+                    self.apply_sets(ins[3], cx, b, tm, mode)
                 self.block(ins, ins[2], cx, dict(env), b, tm, mode)
                 self.emit_end(b, self.shown(nm))
             elif k == "attribute":
